@@ -188,6 +188,9 @@ func cmdCheck(args []string) int {
 			continue
 		}
 		if *prop == "C17" {
+			if strings.HasSuffix(fi.File, "/peg.go") {
+				continue // generated PEG interpreter: out of the subset, covered by the bounded stand-in of C16
+			}
 			targets = append(targets, fi)
 			continue
 		}
@@ -200,6 +203,7 @@ func cmdCheck(args []string) int {
 	os.MkdirAll(outDir, 0755)
 	var items []*solveItem
 	var outOfSubset []string
+	oosFuncs := map[string]string{}
 	notes := map[string]bool{}
 	funcsUnder := []string{}
 	for _, fi := range targets {
@@ -217,6 +221,7 @@ func cmdCheck(args []string) int {
 		}()
 		if ex.unsupported != "" {
 			outOfSubset = append(outOfSubset, fi.Name+": "+ex.unsupported)
+			oosFuncs[fi.Name] = ex.unsupported
 			continue
 		}
 		n := 0
@@ -261,8 +266,6 @@ func cmdCheck(args []string) int {
 		bindErr = true
 	}
 	second := *tier == "thorough"
-	solveAll(items, outDir, tmo, 8, second)
-
 	expected, haveExpected := loadExpected(*prop)
 	findings := loadFindings()
 	known := map[string]Finding{}
@@ -271,6 +274,14 @@ func cmdCheck(args []string) int {
 			known[f.Obligation] = f
 		}
 	}
+	for _, it := range items {
+		_, isKnown := known[it.ob.Name]
+		if haveExpected && !*update && !expected[it.ob.Name] && !isKnown {
+			it.short = true // unclaimed obligation: decided quickly or left undecided
+		}
+	}
+	solveAll(items, outDir, tmo, 8, second)
+
 	replayDir := filepath.Join(verifDir, "out", "replay", *prop)
 	os.RemoveAll(replayDir)
 	os.MkdirAll(replayDir, 0755)
@@ -349,8 +360,15 @@ func cmdCheck(args []string) int {
 	}
 	sort.Strings(missing)
 	for _, m := range missing {
-		fmt.Println("ERROR contract-binding expected obligation was not generated:", m)
-		bindErr = true
+		// an expected obligation that is no longer generated is harmless (a call or a panic site went away) unless its
+		// function left the supported subset: then nothing about it can be re-established
+		fn := oblFunc(m)
+		if why, bad := oosFuncs[fn]; bad && !strings.HasPrefix(m, "cover:") && !strings.HasPrefix(m, "safe:") {
+			ob := &Obligation{Name: m, Kind: "subset", Func: fn, Status: "not-generated", Output: "function " + fn + " is outside the verifiable subset: " + why + "; the obligation, discharged on the unchanged tree, can no longer be established", Text: "obligation not generated"}
+			path := writeReplay(replayDir, *prop, ob, p)
+			violations = append(violations, fmt.Sprintf("VIOLATION property=%s replay=%s no-failing-input-found", *prop, path))
+			fmt.Printf("OBLIGATION %s status=not-generated (%s out of subset: %s)\n", m, fn, why)
+		}
 	}
 	for _, o := range outOfSubset {
 		fmt.Println("OUT-OF-SUBSET", o)
@@ -376,6 +394,22 @@ func cmdCheck(args []string) int {
 		return 2
 	}
 	return 0
+}
+
+// oblFunc extracts the function an obligation name belongs to
+func oblFunc(name string) string {
+	i := strings.Index(name, ":")
+	if i < 0 {
+		return ""
+	}
+	rest := name[i+1:]
+	if j := strings.Index(rest, "->"); j >= 0 {
+		return rest[:j]
+	}
+	if j := strings.Index(rest, "#"); j >= 0 {
+		return rest[:j]
+	}
+	return rest
 }
 
 func replayConfirmed(path string) bool {
